@@ -532,3 +532,18 @@ def run(ctx):
             ctx.broke("correspondence", "%s vs drv_C13 records (%s)" % ("SolverKernels.v/Prox.v" if mod == "run" else "PanocOcp.v/StopChain.v", ",".join(kinds)),
                       json.dumps({"first_disagreeing_case": terms[mod][failing[0]][:3000], "run": describe(runs[k]), "input": to_input(runs[k]),
                                   "n_disagreements": len(failing)}))
+
+    # whole-loop tie for PANOC-OCP: the verified model (PanocOcpLoop.v, Properties_PANOCOCP.v) vs the real solver on whole runs of the
+    # drv_ocp family (= the polynomial family of C12 with nh = nh_N = 0), with C13's own oracle (independent roll-out) on every run
+    if not ctx.replay_path:
+        from vf.props import PANOCOCP
+        stats2 = dict(stats)
+        def on_run(cs, o):
+            r = dict(op="solve", P=dict(cs.prob, nh=0, nhN=0, Hx=[], Hu=[], hq=[], HN=[], hNq=[]), Ulb=cs.prob["Ulb"], Uub=cs.prob["Uub"], u0=cs.u0, y=cs.y, mu=cs.mu,
+                     crit=cs.P_("crit"), tol=cs.tol, max_iter=cs.P_("max_iter"), always=int(cs.always), max_no_progress=cs.P_("max_no_progress"), termonly=0,
+                     stop_at=(0 if cs.stop_eval >= 0 or cs.stop_cb >= 0 else -1), gn_interval=cs.P_("gn_interval"), disable_acc=int(cs.P_("disable_acc")))
+            if cs.time0: r["max_time_ns"] = 0
+            return oracle(r, o, stats2)
+        PANOCOCP.attach(ctx, extra_oracle=on_run)
+        ctx.coverage["attached_runs_eps_recomputed_records"] = stats2["eps_recomputed_records"] - stats["eps_recomputed_records"]
+        ctx.coverage["attached_runs_converged_checked"] = stats2["converged"] - stats["converged"]
